@@ -171,7 +171,12 @@ class Algorithms:
                         fc = len(alg_desc[i])
                         if fc > 0:
                             faults += pow(10, 2 - i) * fc
-                    if n not in alg_list:
+                    # GSS key exchanges are stored with a wildcard in place of their base64 suffix (i.e.: 'gss-gex-sha1-*'), so match the names the peer advertises (i.e.: 'gss-gex-sha1-vz8J1E9PzLr8b1K+0remTg==') against the wildcard.
+                    advertised_names = [n] if n in alg_list else []
+                    if alg_type == 'kex' and n.startswith('gss-') and n.endswith('-*'):
+                        advertised_names = [a for a in alg_list if a.startswith(n[:-1])]
+
+                    if len(advertised_names) == 0:
                         # Don't recommend certificate or token types; these will only appear in the server's list if they are fully configured & functional on the server.  Also don't recommend 'ext-info-[cs]' nor 'kex-strict-[cs]-v00@openssh.com' key exchanges.
                         if faults > 0 or \
                            (alg_type == 'key' and (('-cert-' in n) or (n.startswith('sk-')))) or \
@@ -185,7 +190,8 @@ class Algorithms:
                         if n in ['diffie-hellman-group-exchange-sha256', 'rsa-sha2-256', 'rsa-sha2-512', 'rsa-sha2-256-cert-v01@openssh.com', 'rsa-sha2-512-cert-v01@openssh.com']:
                             rec[sshv][alg_type]['chg'][n] = faults
                         else:
-                            rec[sshv][alg_type]['del'][n] = faults
+                            for advertised_name in advertised_names:
+                                rec[sshv][alg_type]['del'][advertised_name] = faults
                 # If we are working with unknown software, drop all add recommendations, because we don't know if they're valid.
                 if unknown_software:
                     rec[sshv][alg_type]['add'] = {}
